@@ -682,6 +682,55 @@ func checkC06(c *Ctx, k KCase) *Verdict {
 		return v
 	}
 	defer o.b.Close()
+	if res := c06Oracle(c, o, v); res != nil {
+		return res
+	}
+	// the same faults at statement granularity (yield-instrumented emitted code)
+	v3 := &Verdict{Features: v.Features}
+	o3 := runExecY(c, k, v3, false, true, func(ir *injRun, k KCase, b *Built) []*Plan {
+		if th, _ := threadsOf(b, ir.name); th < 2 {
+			return nil
+		}
+		return faultYieldPlans(ir, k, b, c.Thorough())
+	})
+	if o3 != nil {
+		defer o3.b.Close()
+		v.Evals += v3.Evals
+		v.Features["yield-run"] = true
+		if res := c06Oracle(c, o3, v); res != nil {
+			return res
+		}
+	} else if v3.Discard != "" && v3.Discard != "no-plans" {
+		c.Rep.Discard("yield:" + v3.Discard)
+	}
+	v.Sample = describeCase(o.b)
+	return v
+}
+
+// faultYieldPlans: every needed fallible provider failing, with the threads interleaved at
+// statement granularity (FIFO/LIFO over yields, and starve(y) for the yield points).
+func faultYieldPlans(ir *injRun, k KCase, b *Built, all bool) []*Plan {
+	var ps []*Plan
+	var ids []int
+	for id, d := range b.Yields {
+		if strings.HasPrefix(d, ir.name+" ") {
+			ids = append(ids, id)
+		}
+	}
+	sort.Ints(ids)
+	for _, f := range fallibleNeeded(ir.r) {
+		ps = append(ps, &Plan{Policy: "fifo", Fail: []int{f}, CancelAt: -2, Yields: true, Repeat: 2})
+		ps = append(ps, &Plan{Policy: "lifo", Fail: []int{f}, CancelAt: -2, Yields: true, Repeat: 2})
+		for i, id := range ids {
+			if all || i%3 == int(k.Salt)%3 {
+				ps = append(ps, &Plan{Policy: "starve", Starve: 200000 + id, Fail: []int{f}, CancelAt: -2, Yields: true, Repeat: 1})
+			}
+		}
+	}
+	return ps
+}
+
+func c06Oracle(c *Ctx, o *execOutcome, v *Verdict) *Verdict {
 	for _, ex := range o.execs {
 		ir := o.runs[ex.Inj]
 		p := o.plans[ex.Plan]
@@ -735,8 +784,7 @@ func checkC06(c *Ctx, k KCase) *Verdict {
 			}
 		}
 	}
-	v.Sample = describeCase(o.b)
-	return v
+	return nil
 }
 
 func keysInt(m map[int]bool) []int {
@@ -901,6 +949,33 @@ func checkC08(c *Ctx, k KCase) *Verdict {
 		return v
 	}
 	defer o.b.Close()
+	if res := c08Oracle(c, o, v); res != nil {
+		return res
+	}
+	v3 := &Verdict{Features: v.Features}
+	o3 := runExecY(c, k, v3, false, true, func(ir *injRun, k KCase, b *Built) []*Plan {
+		if th, _ := threadsOf(b, ir.name); th < 2 {
+			return nil
+		}
+		ps := faultYieldPlans(ir, k, b, c.Thorough())
+		ps = append(ps, yieldPlans(ir, k, b)...)
+		return ps
+	})
+	if o3 != nil {
+		defer o3.b.Close()
+		v.Evals += v3.Evals
+		v.Features["yield-run"] = true
+		if res := c08Oracle(c, o3, v); res != nil {
+			return res
+		}
+	} else if v3.Discard != "" && v3.Discard != "no-plans" {
+		c.Rep.Discard("yield:" + v3.Discard)
+	}
+	v.Sample = describeCase(o.b)
+	return v
+}
+
+func c08Oracle(c *Ctx, o *execOutcome, v *Verdict) *Verdict {
 	for _, ex := range o.execs {
 		if ex.Crashed || ex.Panic != "" || ex.Deadlock || !ex.Returned {
 			c.Rep.Discard("no-return(C03/C06/C07)")
@@ -932,8 +1007,7 @@ func checkC08(c *Ctx, k KCase) *Verdict {
 			return v
 		}
 	}
-	v.Sample = describeCase(o.b)
-	return v
+	return nil
 }
 
 func TestC08(t *testing.T)        { runProperty(t, "C08", genC06, checkC08) }
